@@ -2085,18 +2085,43 @@ func (m *metadataAPI) checkResumeStreamPreconditions(op *proto.RaftLog) error {
 
 // checkShrinkISRPreconditions checks if the partition whose ISR is being
 // shrunk exists. If the stream doesn't exist, it returns ErrStreamNotFound. If
-// the partition doesn't exist, it returns ErrPartitionNotFound. Otherwise, it
-// returns nil.
+// the partition doesn't exist, it returns ErrPartitionNotFound. If the leader
+// or leader epoch of the request are not the partition's current ones, it
+// returns an error. Otherwise, it returns nil.
 func (m *metadataAPI) checkShrinkISRPreconditions(op *proto.RaftLog) error {
-	return m.partitionExists(op.ShrinkISROp.Stream, op.ShrinkISROp.Partition)
+	return m.checkLeaderGeneration(op.ShrinkISROp.Stream, op.ShrinkISROp.Partition,
+		op.ShrinkISROp.Leader, op.ShrinkISROp.LeaderEpoch)
 }
 
 // checkExpandISRPreconditions checks if the partition whose ISR is being
 // expanded exists. If the stream doesn't exist, it returns ErrStreamNotFound.
-// If the partition doesn't exist, it returns ErrPartitionNotFound. Otherwise,
-// it returns nil.
+// If the partition doesn't exist, it returns ErrPartitionNotFound. If the
+// leader or leader epoch of the request are not the partition's current ones,
+// it returns an error. Otherwise, it returns nil.
 func (m *metadataAPI) checkExpandISRPreconditions(op *proto.RaftLog) error {
-	return m.partitionExists(op.ExpandISROp.Stream, op.ExpandISROp.Partition)
+	return m.checkLeaderGeneration(op.ExpandISROp.Stream, op.ExpandISROp.Partition,
+		op.ExpandISROp.Leader, op.ExpandISROp.LeaderEpoch)
+}
+
+// checkLeaderGeneration checks that the partition exists and that the given
+// leader and leader epoch are its current ones. The leader can change between
+// the time a request was validated and the time it is proposed.
+func (m *metadataAPI) checkLeaderGeneration(streamName string, partitionID int32,
+	leader string, leaderEpoch uint64) error {
+
+	if err := m.partitionExists(streamName, partitionID); err != nil {
+		return err
+	}
+	partition := m.GetPartition(streamName, partitionID)
+	if partition == nil {
+		return ErrPartitionNotFound
+	}
+	currLeader, currEpoch := partition.GetLeader()
+	if leader != currLeader || leaderEpoch != currEpoch {
+		return fmt.Errorf("Leader generation mismatch, current leader: %s epoch: %d, got leader: %s epoch: %d",
+			currLeader, currEpoch, leader, leaderEpoch)
+	}
+	return nil
 }
 
 // checkChangeLeaderPreconditions checks if the partition whose leader is being
